@@ -468,6 +468,30 @@ class NPShim:
         a.fill(S(z3.Real("uninit!%d" % id(a))))
         return a
 
+    def full(self, shape, val, dtype=None, **kw):
+        a = _np.empty(shape, dtype=object)
+        if isinstance(val, float) and val != val:
+            for idx in _np.ndindex(*a.shape):
+                a[idx] = S(z3.Real("nanfill!%d!%s" % (id(a) % 100000, "_".join(map(str, idx)))))
+        else:
+            a.fill(S(_t(val)))
+        return a
+
+    def diag(self, a):
+        a = lift(a)
+        if a.ndim == 2:
+            return _np.array([a[i, i] for i in range(a.shape[0])], dtype=object)
+        out = self.zeros((a.shape[0], a.shape[0]))
+        for i in range(a.shape[0]):
+            out[i, i] = a[i]
+        return out
+
+    def stack(self, arrs, axis=0):
+        return _np.stack([lift(a) for a in arrs], axis=axis)
+
+    def column_stack(self, arrs):
+        return _np.column_stack([lift(a) for a in arrs])
+
     def eye(self, n, dtype=None):
         return lift(_np.eye(n).astype(int))
 
@@ -496,7 +520,7 @@ class NPShim:
 
     def isnan(self, x):
         if isinstance(x, S):
-            return SB(z3.BoolVal(False))
+            return False
         return _np.isnan(x) if not (_arr(x) and x.dtype == object) else _np.zeros(x.shape, bool)
 
     def radians(self, x):
@@ -564,8 +588,10 @@ class NPShim:
     def outer(self, a, b):
         return _np.outer(lift(a), lift(b))
 
-    def allclose(self, *a, **k):
-        raise Unsupported("np.allclose inside traced code")
+    def allclose(self, a, b, **k):
+        if isinstance(a, (int, float)) and isinstance(b, (int, float)):
+            return _np.allclose(a, b, **k)
+        raise Unsupported("np.allclose on symbolic values inside traced code")
 
 
 class LinalgShim:
@@ -597,6 +623,28 @@ class LinalgShim:
         return (m[0, 0] * (m[1, 1] * m[2, 2] - m[1, 2] * m[2, 1]) - m[0, 1] * (m[1, 0] * m[2, 2] - m[1, 2] * m[2, 0])
                 + m[0, 2] * (m[1, 0] * m[2, 1] - m[1, 1] * m[2, 0]))
 
+    def svd(self, m):
+        """assumed contract of numpy.linalg.svd for an invertible 3x3 F: F = w.diag(s).vh, w and vh orthogonal, s > 0"""
+        m = lift(m)
+        tr = Tracer.current
+        k = len(getattr(tr, "svd_calls", [])) if tr is not None else 0
+        w = symarray("svd%d_w" % k, (3, 3))
+        s = symarray("svd%d_s" % k, (3,))
+        vh = symarray("svd%d_vh" % k, (3, 3))
+        if tr is not None:
+            tr.svd_calls = getattr(tr, "svd_calls", []) + [(m, w, s, vh)]
+        return w, s, vh
+
+    def matrix_power(self, m, n):
+        m = lift(m)
+        if n < 0:
+            m = self.inv(m)
+            n = -n
+        out = lift(_np.eye(3).astype(int))
+        for _ in range(int(n)):
+            out = _np.dot(out, m)
+        return out
+
     def norm(self, v, axis=None):
         v = lift(v)
         if v.ndim == 1:
@@ -619,9 +667,18 @@ class MathShim:
 
 @contextlib.contextmanager
 def shimmed(*modules, extra=None):
-    """rebind np / math in the given modules for the duration of a trace (process-local, nothing is written)"""
+    """rebind np / math in the given modules for the duration of a trace (process-local, nothing is written);
+    `from math import ...` executed inside a traced function sees the shim as well"""
+    import sys
     saved = []
     shim = NPShim()
+    real_math = sys.modules["math"]
+    fake_math = types.ModuleType("math")
+    ms = MathShim()
+    for nm in ("sin", "cos", "tan", "asin", "acos", "atan2", "sqrt", "degrees", "radians", "fabs", "floor", "log", "exp"):
+        setattr(fake_math, nm, getattr(ms, nm))
+    fake_math.pi = MathShim.pi
+    sys.modules["math"] = fake_math
     try:
         for m in modules:
             for name, val in (("np", shim), ("numpy", shim), ("math", MathShim())):
@@ -633,6 +690,7 @@ def shimmed(*modules, extra=None):
                 setattr(m, name, val)
         yield shim
     finally:
+        sys.modules["math"] = real_math
         for m, name, val in reversed(saved):
             if val is None:
                 try:
